@@ -39,6 +39,19 @@ SPEC = {
         "Props/C15.lean); single-threaded execution",
         "`retry` outcomes (the kernel meets an undefined vertex / anchor, or collapse_edge computes NULL_VERTEX_ID as the new vertex) are "
         "not successes: only `map unchanged` is required of them; they are counted in the evidence notes",
+        "OUTSIDE THE STATEMENT, observed on every run (the statement only constrains successful calls): (1) cut_inner_edge can never "
+        "succeed on a map whose VertexAnchor storage is registered — its first 1-sew (ld, nd1) merges the vertex attributes of the two "
+        "brand-new vertices {nd4,nd6} and {nd1,nd3}, both without anchor, i.e. VertexAnchor::merge_from_none = Err(InsufficientData) "
+        "(`grid 2 1 224 ncl 0 0 1 1 1 1` + anchors / `add 6` / `cutin 2 7 8 9 10 11 12` -> err InsufficientData, map unchanged); "
+        "(2) collapse_edge on a boundary edge of a corner triangle (beta2(b0l) = null and no right side) computes NULL_VERTEX_ID as the "
+        "new vertex and then calls is_orbit_orientation_consistent(NULL), which reads the undefined vertex 0 and returns "
+        "StmError::Retry: inside atomically_with_err the call waits forever (`grid 2 1 224 ncl 0 0 2 1 1 1` + anchors / `collapse 1` "
+        "-> retry); the same Retry is returned whenever collapse_edge is given the non-canonical dart of an anchored edge (the "
+        "EdgeAnchor is read at the dart passed, not at the edge identifier)",
+    ],
+    "notes": [
+        "cut_inner_edge + registered VertexAnchor => always Err(InsufficientData) (merge_from_none on the two new vertices)",
+        "collapse_edge on corner triangles => NULL_VERTEX_ID => is_orbit_orientation_consistent(NULL) => Retry forever",
     ],
     "rule": "split grids 1x1..3x3 (thorough 4x4) from `grid 2 1 <mask> ncl`, vertices perturbed by multiples of 1/16 (all triangles stay "
             "positively oriented), with and without anchors (corners = nodes, boundary = curves, interior = surfaces; faces one or several "
@@ -498,6 +511,7 @@ def run(tier, seed):
     res["violations"] = dedupe(res["violations"])
     res["stats"]["history_ops"] = r2["stats"]["history_ops"]
     res["stats"]["history_max_ops"] = r2["stats"]["history_max_ops"]
+    res.setdefault("notes", []).extend(SPEC["notes"])
     if remesh.DEGENERATE[0]:
         res.setdefault("notes", []).append(
             f"{remesh.DEGENERATE[0]} successful collapses (all in histories, on meshes whose vertices were moved by D9) left a zero-area "
